@@ -1745,7 +1745,7 @@ def override_values(rng, case):
     res = {}
     for name, arr, kind in case.overridable:
         if kind == "float":
-            res[name] = (arr + np.float32(rng.choice([1, -2, 3]))).astype(np.float32)
+            res[name] = np.asarray(arr + np.asarray(rng.choice([1, -2, 3]), dtype=arr.dtype), dtype=arr.dtype).reshape(arr.shape)
         elif kind == "bool":
             res[name] = np.array(not bool(arr))
         else:
@@ -1901,3 +1901,320 @@ def lifted_cases(rng, dirs, modes=("const-init", "const-node", "wrap-if", "chain
             c = None
         if c is not None:
             yield c
+
+
+# ------------------------------------------------------------------------------------------- overridable defaults reached through aliases
+
+ALIAS_VARIANTS = ("identity", "identity-chain", "same-type-cast", "dropout-inference", "if-const-forward", "if-dyn-body",
+                  "loop-body", "identity-int", "two-consumers",
+                  # the alias sits in an OPTIONAL input slot of a node whose other inputs are constants: a folder that evaluates
+                  # the node although it (now) reads a graph input sees "input omitted"
+                  "opt-clip-min", "opt-clip-max", "opt-reducesum-axes", "opt-squeeze-axes", "opt-pad-value", "opt-gemm-bias")
+
+
+def _gen_alias_optional_slot(rng, idx, variant):
+    F = TensorProto.FLOAT
+    nodes, inits = [], []
+
+    def vi(name, shape, t=F):
+        return helper.make_tensor_value_info(name, t, list(shape))
+
+    def cst(name, arr):
+        if rng.random() < 0.5:
+            inits.append(numpy_helper.from_array(arr, name))
+        else:
+            nodes.append(helper.make_node("Constant", [], [name], value=numpy_helper.from_array(arr, name)))
+    alias_op = rng.choice(["Identity", "Identity", "chain"])
+
+    def alias():
+        if alias_op == "chain":
+            nodes.append(helper.make_node("Identity", ["ov0"], ["al0"]))
+            nodes.append(helper.make_node("Identity", ["al0"], ["al"]))
+        else:
+            nodes.append(helper.make_node("Identity", ["ov0"], ["al"]))
+    base = np.array([-4, -1, 0, 2, 5, 9], dtype=np.float32)
+    if variant in ("opt-clip-min", "opt-clip-max"):
+        ov = np.array(rng.choice([1, 3, -2]), dtype=np.float32)
+        ov2 = [np.array(4, dtype=np.float32), np.array(-3, dtype=np.float32)]
+        cst("cst", base)
+        alias()
+        nodes.append(helper.make_node("Clip", ["cst", "al"] if variant == "opt-clip-min" else ["cst", "", "al"], ["fo"]))
+        fo_shape = (6,)
+    elif variant == "opt-reducesum-axes":
+        ov = np.array([rng.choice([0, 1])], dtype=np.int64)
+        ov2 = [np.array([1 - int(ov[0])], dtype=np.int64), np.array([-1], dtype=np.int64)]
+        cst("cst", base.reshape(2, 3))
+        alias()
+        nodes.append(helper.make_node("ReduceSum", ["cst", "al"], ["fo"], keepdims=1))
+        fo_shape = ("r0", "r1")
+    elif variant == "opt-squeeze-axes":
+        ov = np.array([0], dtype=np.int64)
+        ov2 = [np.array([2], dtype=np.int64), np.array([-1], dtype=np.int64)]
+        cst("cst", base.reshape(1, 6, 1))
+        alias()
+        nodes.append(helper.make_node("Squeeze", ["cst", "al"], ["fo"]))
+        fo_shape = ("r0", "r1")
+    elif variant == "opt-pad-value":
+        ov = np.array(rng.choice([1.5, -2, 7]), dtype=np.float32)
+        ov2 = [np.array(4, dtype=np.float32), np.array(-3, dtype=np.float32)]
+        cst("cst", base)
+        cst("pads", np.array([1, 2], dtype=np.int64))
+        alias()
+        nodes.append(helper.make_node("Pad", ["cst", "pads", "al"], ["fo"]))
+        fo_shape = (9,)
+    else:
+        ov = np.array([1, -2, 3], dtype=np.float32)
+        ov2 = [np.array([4, 4, 4], dtype=np.float32), np.array([0, 1, 0], dtype=np.float32)]
+        cst("cst", base.reshape(2, 3))
+        cst("wgt", np.array([[1, 0, 2], [0, 1, 0], [1, 1, 1]], dtype=np.float32))
+        alias()
+        nodes.append(helper.make_node("Gemm", ["cst", "wgt", "al"], ["fo"]))
+        fo_shape = (2, 3)
+    inits.insert(0, numpy_helper.from_array(ov, "ov0"))
+    nodes.append(helper.make_node("Abs", ["x0"], ["y"]))
+    T = NP2ONNX[ov.dtype]
+    g = helper.make_graph(nodes, f"alias{idx}", [vi("x0", (3,)), vi("ov0", ov.shape, T)], [vi("y", (3,)), vi("fo", fo_shape)], initializer=inits)
+    m = helper.make_model(g, opset_imports=[helper.make_opsetid("", rng.choice([18, 21]))], ir_version=rng.choice([8, 9, 10]))
+    feeds = [{"x0": np.ones(3, dtype=np.float32)}, {"x0": nice(rng, F32, (3,)), "ov0": ov2[0]}, {"x0": nice(rng, F32, (3,)), "ov0": ov2[1]}]
+    return Case(m, feeds, sorted({"overridable-alias:" + variant, "alias-in-optional-input-slot", "alias-by-" + alias_op}), [True, True], "alias",
+                f"alias-{variant}-{idx}", overridable=[("ov0", ov, "float")])
+
+
+def gen_overridable_alias(rng, idx, variant=None):
+    """An initializer that is also a graph input (an overridable default) reaches an otherwise constant-foldable node NOT
+    directly but through a value whose symbolic value in the folder is that graph input: Identity (also chained), a Cast to
+    the same type / a Dropout in inference mode (partial evaluators that become Identity), the Identity of a branch of an If
+    on a constant condition (inlined, then forwarded), and the same inside If / Loop bodies.  Every model also has an
+    ordinary input.  Feeds: one with the defaults, two with override values (all are valid inputs of the model)."""
+    variant = variant or ALIAS_VARIANTS[idx % len(ALIAS_VARIANTS)]
+    if variant.startswith("opt-"):
+        return _gen_alias_optional_slot(rng, idx, variant)
+    is_int = variant == "identity-int"
+    dt = I64 if is_int else F32
+    T = NP2ONNX[dt]
+    shp = rng.choice([(3,), (2, 3), (), (1, 3)])
+    ov = nice(rng, dt, shp)
+    # defaults 0 / 1 / -1 would let the constant-matching rewrite rules (x+0, x*1: known findings of C05/C04) fire on the default;
+    # this family is about the folder
+    ov = np.where(np.isin(ov, (0, 1, -1)), np.asarray(ov + 3, dtype=dt), ov).astype(dt).reshape(shp)
+    c = nice(rng, dt, rng.choice([(), shp]))
+    if not is_int:
+        c = (c + np.float32(0.5)).astype(dt) if rng.random() < 0.5 else c
+    xs = rng.choice([(3,), (2, 3), (1, 3)])
+    oshape = tuple(np.broadcast_shapes(shp, xs))
+    op = rng.choice(["Add", "Mul", "Sub"] if not is_int else ["Add", "Mul", "Sub"])
+    nodes, inits = [], [numpy_helper.from_array(ov, "ov0")]
+    c_how = rng.choice(["init", "node"])
+    if c_how == "init":
+        inits.append(numpy_helper.from_array(c, "cst"))
+    else:
+        nodes.append(helper.make_node("Constant", [], ["cst"], value=numpy_helper.from_array(c, "cst")))
+    feats = {"overridable-alias:" + variant, "overridable-initializer-" + ("int" if is_int else "float"), "constant-" + c_how}
+
+    def vi(name, shape, t=T):
+        return helper.make_tensor_value_info(name, t, list(shape))
+
+    alias = "al"
+    if variant in ("identity", "identity-int", "two-consumers"):
+        nodes.append(helper.make_node("Identity", ["ov0"], [alias]))
+    elif variant == "identity-chain":
+        nodes.append(helper.make_node("Identity", ["ov0"], ["al0"]))
+        nodes.append(helper.make_node("Identity", ["al0"], [alias]))
+    elif variant == "same-type-cast":
+        nodes.append(helper.make_node("Cast", ["ov0"], [alias], to=T))
+    elif variant == "dropout-inference":
+        nodes.append(helper.make_node("Dropout", ["ov0"], [alias]))
+    elif variant == "if-const-forward":
+        cond_how = rng.choice(["init", "node"])
+        cv = bool(rng.random() < 0.5)
+        if cond_how == "init":
+            inits.append(numpy_helper.from_array(np.array(cv), "cnd"))
+        else:
+            nodes.append(helper.make_node("Constant", [], ["cnd"], value=numpy_helper.from_array(np.array(cv), "cnd")))
+        g1 = helper.make_graph([helper.make_node("Identity", ["ov0"], ["bt"])], "fwd_then", [], [vi("bt", shp)])
+        g2 = helper.make_graph([helper.make_node("Identity", ["ov0"], ["be0"]), helper.make_node("Identity", ["be0"], ["be"])], "fwd_else", [], [vi("be", shp)])
+        nodes.append(helper.make_node("If", ["cnd"], [alias], then_branch=g1, else_branch=g2))
+    if variant in ("if-dyn-body", "loop-body"):
+        # the alias and its foldable consumer live inside a body; the default is captured from the outer scope
+        body_nodes = [helper.make_node("Identity", ["ov0"], ["bal"]), helper.make_node(op, ["bal", "cst"], ["bfo"])]
+        if variant == "if-dyn-body":
+            nodes.append(helper.make_node("ReduceSum", ["x0"], ["rs"], keepdims=0))
+            nodes.append(helper.make_node("Constant", [], ["zero"], value=numpy_helper.from_array(np.array(0, dtype=dt), "zero")))
+            nodes.append(helper.make_node("Greater", ["rs", "zero"], ["dc"]))
+            g1 = helper.make_graph(body_nodes, "ov_then", [], [vi("bfo", np.broadcast_shapes(shp, c.shape))])
+            g2 = helper.make_graph([helper.make_node("Neg", ["ov0"], ["bne"])], "ov_else", [], [vi("bne", shp)])
+            nodes.append(helper.make_node("If", ["dc"], ["fo"], then_branch=g1, else_branch=g2))
+        else:
+            nodes.append(helper.make_node("Constant", [], ["trip"], value=numpy_helper.from_array(np.array(2, dtype=np.int64), "trip")))
+            nodes.append(helper.make_node("Constant", [], ["lc"], value=numpy_helper.from_array(np.array(True), "lc")))
+            carried_shape = tuple(np.broadcast_shapes(shp, c.shape))
+            nodes.append(helper.make_node("Constant", [], ["acc0"], value=numpy_helper.from_array(np.zeros(carried_shape, dtype=dt), "acc0")))
+            body = helper.make_graph(body_nodes + [helper.make_node("Add", ["acc", "bfo"], ["acc_o"]), helper.make_node("Identity", ["lcond"], ["lcond_o"])],
+                                     "ov_loop", [vi("it", (), TensorProto.INT64), vi("lcond", (), TensorProto.BOOL), vi("acc", carried_shape)],
+                                     [vi("lcond_o", (), TensorProto.BOOL), vi("acc_o", carried_shape)])
+            nodes.append(helper.make_node("Loop", ["trip", "lc", "acc0"], ["fo"], body=body))
+        fo_shape = tuple(np.broadcast_shapes(shp, c.shape))
+    else:
+        ins = [alias, "cst"] if rng.random() < 0.6 else ["cst", alias]
+        nodes.append(helper.make_node(op, ins, ["fo"]))
+        fo_shape = tuple(np.broadcast_shapes(shp, c.shape))
+    outs = []
+    if variant == "two-consumers":
+        # the graph input itself is also consumed directly (guarded) next to the aliased consumer
+        nodes.append(helper.make_node("Neg", ["ov0"], ["dn"]))
+        nodes.append(helper.make_node("Add", ["dn", "fo"], ["fo2"]))
+        last = "fo2"
+    else:
+        last = "fo"
+    oshape = tuple(np.broadcast_shapes(fo_shape, xs))
+    if rng.random() < 0.5:
+        nodes.append(helper.make_node("Mul", ["x0", last], ["y"]))
+        outs.append(vi("y", oshape))
+        exact = [True]
+        if rng.random() < 0.5:
+            outs.append(vi(last, fo_shape))
+            exact.append(True)
+            feats.add("intermediate-also-output")
+    else:
+        nodes.append(helper.make_node("Abs", ["x0"], ["y"]))
+        outs += [vi("y", xs), vi(last, fo_shape)]
+        exact = [True, True]
+        feats.add("folded-value-is-graph-output")
+    g = helper.make_graph(nodes, f"alias{idx}", [vi("x0", xs), vi("ov0", shp)], outs, initializer=inits)
+    m = helper.make_model(g, opset_imports=[helper.make_opsetid("", rng.choice([18, 21]))], ir_version=rng.choice([8, 9, 10]))
+    feeds = []
+    for k in range(3):
+        fd = {"x0": np.ones(xs, dtype=dt) if k == 0 else nice(rng, dt, xs)}
+        if k:
+            fd["ov0"] = np.asarray(ov + np.asarray(rng.choice([1, -2, 3]), dtype=dt), dtype=dt).reshape(shp)
+        feeds.append(fd)
+    return Case(m, feeds, sorted(feats), exact, "alias", f"alias-{variant}-{idx}", overridable=[("ov0", ov, "float")])
+
+
+# ------------------------------------------------------------------------------------------- CSE / DCE / dedup families
+
+PASS_VARIANTS = ("twins", "twin-is-output", "twins-both-outputs", "twin-used-in-if", "twin-in-two-scopes", "attr-zero-sign", "const-zero-sign",
+                 "dead-chain-and-dead-if", "dup-init-zero-sign", "dup-init-nan-payload", "dup-init-strings", "dup-init-dtypes", "const-only-in-subgraph",
+                 "slice-unnamed-dynamic-axis", "slices-chained-dynamic-axis")
+
+
+def gen_pass_case(rng, idx, variant=None):
+    """Small models aimed at the onnx_ir stages of optimize_ir: common subexpressions (also across scopes, as graph outputs,
+    with attributes / constants that are == in Python but not the same: 0.0 vs -0.0), dead nodes (chains, a dead If whose
+    body reads outer values), duplicated initializers that must NOT be merged (-0.0 / 0.0, NaN payloads, different dtypes
+    with the same bytes) and that may (equal strings), constants used only inside subgraphs."""
+    variant = variant or PASS_VARIANTS[idx % len(PASS_VARIANTS)]
+    F = TensorProto.FLOAT
+    nodes, inits, outs, exact = [], [], [], []
+    ins = [helper.make_tensor_value_info("x", F, [3])]
+
+    def vi(name, shape, t=F):
+        return helper.make_tensor_value_info(name, t, list(shape))
+
+    def init(name, arr):
+        inits.append(numpy_helper.from_array(np.asarray(arr), name))
+    feeds = [{"x": np.array([-2, 0, 3], dtype=np.float32)}, {"x": np.array([1, -1, 0.5], dtype=np.float32)}, {"x": nice(rng, F32, (3,))}]
+    if variant.startswith("twin"):
+        init("c", np.array([1, 2, 3], dtype=np.float32))
+        op = rng.choice(["Add", "Mul", "Sub"])
+        nodes += [helper.make_node(op, ["x", "c"], ["t1"]), helper.make_node("Neg", ["t1"], ["m"]), helper.make_node(op, ["x", "c"], ["t2"])]
+        if variant == "twins":
+            nodes.append(helper.make_node("Mul", ["m", "t2"], ["y"]))
+            outs, exact = [vi("y", [3])], [True]
+        elif variant == "twin-is-output":
+            nodes.append(helper.make_node("Abs", ["t2"], ["y"]))
+            outs, exact = [vi("y", [3]), vi("t2", [3]), vi("m", [3])], [True, True, True]
+        elif variant == "twins-both-outputs":
+            outs, exact = [vi("t1", [3]), vi("t2", [3]), vi("m", [3])], [True, True, True]
+        else:
+            ins.append(helper.make_tensor_value_info("b", TensorProto.BOOL, []))
+            for fd in feeds:
+                fd["b"] = np.array(rng.random() < 0.5)
+            inner = [helper.make_node("Add", ["t2", "m"], ["bt"])]
+            if variant == "twin-in-two-scopes":
+                inner = [helper.make_node(op, ["x", "c"], ["t3"]), helper.make_node("Add", ["t3", "t2"], ["bt"])]
+            g1 = helper.make_graph(inner, "tb", [], [vi("bt", [3])])
+            g2 = helper.make_graph([helper.make_node("Identity", ["t1"], ["be"])], "eb", [], [vi("be", [3])])
+            nodes.append(helper.make_node("If", ["b"], ["y"], then_branch=g1, else_branch=g2))
+            outs, exact = [vi("y", [3])], [True]
+    elif variant == "attr-zero-sign":
+        # LeakyRelu(x, alpha) = alpha * x for x < 0: alpha = 0.0 gives -0.0, alpha = -0.0 gives +0.0; 1 / (.) tells them apart
+        nodes += [helper.make_node("LeakyRelu", ["x"], ["l1"], alpha=0.0), helper.make_node("LeakyRelu", ["x"], ["l2"], alpha=-0.0)]
+        init("one", np.array(1, dtype=np.float32))
+        nodes += [helper.make_node("Div", ["one", "l1"], ["y1"]), helper.make_node("Div", ["one", "l2"], ["y2"])]
+        outs, exact = [vi("y1", [3]), vi("y2", [3])], [True, True]
+        feeds = [{"x": np.array([-2, -1, 3], dtype=np.float32)}, {"x": np.array([-1, -1, -0.5], dtype=np.float32)}, {"x": np.array([-4, 2, 1], dtype=np.float32)}]
+    elif variant == "const-zero-sign":
+        nodes += [helper.make_node("Constant", [], ["z1"], value_float=0.0), helper.make_node("Constant", [], ["z2"], value_float=-0.0)]
+        nodes += [helper.make_node("Mul", ["x", "z1"], ["p1"]), helper.make_node("Mul", ["x", "z2"], ["p2"])]
+        init("one", np.array(1, dtype=np.float32))
+        nodes += [helper.make_node("Div", ["one", "p1"], ["y1"]), helper.make_node("Div", ["one", "p2"], ["y2"])]
+        outs, exact = [vi("y1", [3]), vi("y2", [3])], [True, True]
+        feeds = [{"x": np.array([2, 1, 3], dtype=np.float32)}, {"x": np.array([1, 1, 0.5], dtype=np.float32)}, {"x": np.array([4, 2, 1], dtype=np.float32)}]
+    elif variant == "dead-chain-and-dead-if":
+        ins.append(helper.make_tensor_value_info("b", TensorProto.BOOL, []))
+        for fd in feeds:
+            fd["b"] = np.array(rng.random() < 0.5)
+        init("c", np.array([1, 2, 3], dtype=np.float32))
+        init("unused", np.array([7], dtype=np.float32))
+        nodes += [helper.make_node("Relu", ["x"], ["r"]), helper.make_node("Add", ["r", "c"], ["d1"]), helper.make_node("Neg", ["d1"], ["d2"]),
+                  helper.make_node("Abs", ["x"], ["keep"])]
+        g1 = helper.make_graph([helper.make_node("Mul", ["keep", "c"], ["bt"])], "tb", [], [vi("bt", [3])])
+        g2 = helper.make_graph([helper.make_node("Neg", ["keep"], ["be"])], "eb", [], [vi("be", [3])])
+        nodes.append(helper.make_node("If", ["b"], ["dead_if"], then_branch=g1, else_branch=g2))
+        g3 = helper.make_graph([helper.make_node("Exp", ["r"], ["dead_inner"]), helper.make_node("Mul", ["r", "c"], ["bt2"])], "tb2", [], [vi("bt2", [3])])
+        g4 = helper.make_graph([helper.make_node("Neg", ["r"], ["be2"])], "eb2", [], [vi("be2", [3])])
+        nodes.append(helper.make_node("If", ["b"], ["y"], then_branch=g3, else_branch=g4))
+        outs, exact = [vi("y", [3])], [True]
+    elif variant.startswith("dup-init"):
+        if variant == "dup-init-zero-sign":
+            a, b = np.array([0.0, 1.0], dtype=np.float32), np.array([-0.0, 1.0], dtype=np.float32)
+        elif variant == "dup-init-nan-payload":
+            a = np.array([0x7fc00000, 0x3f800000], dtype=np.uint32).view(np.float32)
+            b = np.array([0x7fc00001, 0x3f800000], dtype=np.uint32).view(np.float32)
+        elif variant == "dup-init-dtypes":
+            a, b = np.array([1, 0], dtype=np.int32), np.array([1.4e-45, 0], dtype=np.float32)       # same bytes, different element type
+        else:
+            a, b = np.array(["ab", "c"], dtype=object), np.array(["ab", "c"], dtype=object)
+        init("w1", a)
+        init("w2", b)
+        init("w3", a.copy())
+        if variant == "dup-init-strings":
+            init("w4", np.array(["ab", "d"], dtype=object))
+            nodes += [helper.make_node("StringConcat", ["w1", "w2"], ["s1"]), helper.make_node("StringConcat", ["w3", "w4"], ["s2"]), helper.make_node("Abs", ["x"], ["y"])]
+            outs, exact = [vi("y", [3]), vi("s1", [2], TensorProto.STRING), vi("s2", [2], TensorProto.STRING)], [True, True, True]
+        elif variant == "dup-init-dtypes":
+            nodes += [helper.make_node("Cast", ["w1"], ["k1"], to=F), helper.make_node("Add", ["k1", "w2"], ["k2"]), helper.make_node("Cast", ["w3"], ["k3"], to=F),
+                      helper.make_node("Add", ["k2", "k3"], ["y0"]), helper.make_node("Abs", ["x"], ["y"])]
+            outs, exact = [vi("y", [3]), vi("y0", [2])], [True, True]
+        else:
+            init("one", np.array(1, dtype=np.float32))
+            nodes += [helper.make_node("Div", ["one", "w1"], ["q1"]), helper.make_node("Div", ["one", "w2"], ["q2"]), helper.make_node("Div", ["one", "w3"], ["q3"]),
+                      helper.make_node("Abs", ["x"], ["y"])]
+            outs, exact = [vi("y", [3]), vi("q1", [2]), vi("q2", [2]), vi("q3", [2])], [True] * 4
+    elif variant in ("slice-unnamed-dynamic-axis", "slices-chained-dynamic-axis"):
+        # a Slice that really drops rows along an axis whose extent is an anonymous unknown dimension on both sides (a rule that
+        # compares recorded shapes must not take [?,4] -> [?,4] for a no-op)
+        ins = [helper.make_tensor_value_info("x", F, [None, 4])]
+        for nm, arr in (("st", [1]), ("en", [3]), ("ax", [0]), ("sp", [1]), ("st2", [0]), ("en2", [1])):
+            init(nm, np.array(arr, dtype=np.int64))
+        if variant == "slice-unnamed-dynamic-axis":
+            nodes.append(helper.make_node("Slice", ["x", "st", "en", "ax", "sp"], ["y"]))
+        else:
+            nodes += [helper.make_node("Slice", ["x", "st", "en", "ax", "sp"], ["s1"]), helper.make_node("Slice", ["s1", "st2", "en2", "ax", "sp"], ["y"])]
+        outs, exact = [helper.make_tensor_value_info("y", F, [None, 4])], [True]
+        feeds = [{"x": np.arange(24, dtype=np.float32).reshape(6, 4)}, {"x": np.ones((4, 4), dtype=np.float32)}, {"x": nice(rng, F32, (5, 4))}]
+    else:   # const-only-in-subgraph
+        ins.append(helper.make_tensor_value_info("b", TensorProto.BOOL, []))
+        for fd in feeds:
+            fd["b"] = np.array(rng.random() < 0.5)
+        nodes.append(helper.make_node("Constant", [], ["k"], value=numpy_helper.from_array(np.array([1, 2, 3], dtype=np.float32), "k")))
+        nodes.append(helper.make_node("Constant", [], ["k2"], value_floats=[1.0, 2.0, 3.0]))
+        g1 = helper.make_graph([helper.make_node("Constant", [], ["ki"], value_floats=[1.0, 2.0, 3.0]), helper.make_node("Add", ["x", "ki"], ["s"]),
+                                helper.make_node("Mul", ["s", "k"], ["bt"])], "tb", [], [vi("bt", [3])])
+        g2 = helper.make_graph([helper.make_node("Sub", ["x", "k2"], ["be"])], "eb", [], [vi("be", [3])])
+        nodes.append(helper.make_node("If", ["b"], ["y"], then_branch=g1, else_branch=g2))
+        outs, exact = [vi("y", [3])], [True]
+    g = helper.make_graph(nodes, f"pass{idx}", ins, outs, initializer=inits)
+    m = helper.make_model(g, opset_imports=[helper.make_opsetid("", 21 if variant == "dup-init-strings" else rng.choice([18, 21]))], ir_version=rng.choice([9, 10]))
+    return Case(m, feeds, ["pass-family:" + variant], exact, "passfam", f"pass-{variant}-{idx}")
